@@ -83,9 +83,10 @@ func (c *TrackSetController) Add(op *TrackOp) {
 	c.set.Add(n, op)
 }
 
+// Distribute adds a copy of op to every track, at the same absolute time.
 func (c *TrackSetController) Distribute(op *TrackOp) {
 	for i := range c.set.Len() {
-		c.set.Add(i, op)
+		c.set.Get(i).Add(NewTrackOp(op.TickDelta, op.Type, op.Func))
 	}
 }
 
